@@ -235,7 +235,12 @@ class Node(object):
                 code = spec.loader.get_code(p["module"])
                 source = spec.loader.get_source(p["module"])
             else:
-                source = p["source"]
+                if "source_b64" in p:
+                    import base64
+
+                    source = base64.b64decode(p["source_b64"])
+                else:
+                    source = p["source"]
                 with warnings.catch_warnings():
                     warnings.simplefilter("ignore")
                     code = compile(source, p["filename"], "exec")
@@ -248,7 +253,7 @@ class Node(object):
             return {"ok": False, "why": "api-raises:" + type(e).__name__ + ":" + str(e)[:100]}
         sections = []
         if flags.get("source") and source is not None:
-            sections.append(["source", source + "\n"])
+            sections.append(["source", (source if isinstance(source, str) else str(source)) + "\n"])
         if flags.get("dis"):
             sections.append(["dis", render_dis(code)])
         sections.append(["repr", repr(data) + "\n"])
